@@ -818,7 +818,7 @@ def main():
     for (P, taps, Wb, npol, bits) in [(4, 2, 3, 2, 8), (4, 2, 4, 1, 4)] + ([(4, 3, 5, 2, 8), (8, 2, 3, 2, 4)] if ck.thorough else []):
         jobs.append(('job_partition', (P, taps, Wb, npol, bits)))
     # one sub-block of more than a thousand spectra (block- or slab-wise front ends must not lose a remainder)
-    jobs.append(('job_record', (4, 2, 516, 1, 1, 1, 8, 0, 1, 1, 1, True)))
+    jobs.append(('job_record', (4, 3, 345, 1, 1, 1, 8, 0, 1, 1, 1, True)))     # 1035 spectra in one call: odd, not a multiple of any slab size
     for (period, Wb, npol) in ((-1, 3, 1), (0, 3, 2), (-1, 4, 1), (50, 3, 1)):
         jobs.append(('job_partition_real_quantizers', (period, Wb, npol)))
     # the real MultiAntennaArray as the source (own + delayed shared background), incl. delays exceeding later requests
